@@ -27,7 +27,8 @@ ALPHA = ["a", "b", "+", "#", "\n", "\n", "\r", "\u2028", "\u2029", "\x85", "\x0b
          "\x00", "\xe9", "\u754c", "\U0001F600", "\uffff", "\U0010FFFF", " ", "\x7f", "\x80", "\u07ff",
          "\u0800", "\ud7ff", "\ue000", "\ufffd", "\ufeff", "+", "\n+", "\n#", "\r\n"]
 SMALL = ["a", "+", "#", "\n", "\r", "\xe9", "\U0001F600"]
-FOPS = {1: "append_string", 2: "fresh_load", 3: "truncate", 4: "load", 5: "get_strings", 6: "raw_bytes"}
+FOPS = {1: "append_string", 2: "fresh_load", 3: "truncate", 4: "load", 5: "get_strings", 6: "raw_bytes",
+        7: "g=load()", 8: "anext(g)"}
 
 
 # --------------------------------------------------------------------------
@@ -55,6 +56,7 @@ class FileRunner:
         if os.path.exists(self.path):
             os.remove(self.path)
         insts = [FileHistory(self.path) for _ in range(3)]
+        gens = {}
         ops_out, res = [], []
         for op in ops_in:
             k = op[0]
@@ -93,6 +95,15 @@ class FileRunner:
                     with open(self.path, "ab") as f:
                         f.write(bytes(op[1]))
                     res.append(len(self._read()))
+                elif k == 7:
+                    gens[op[1]] = insts[op[1]].load()
+                    res.append(0)
+                elif k == 8:
+                    g = gens.get(op[1])
+                    try:
+                        res.append([S(self.loop.run_until_complete(g.__anext__()))] if g is not None else [])
+                    except StopAsyncIteration:
+                        res.append([])
                 else:
                     raise ValueError(k)
             except Hang:
@@ -125,6 +136,28 @@ def oracle_file(meta, ops, res):
                 if r != es[::-1]:
                     return ("fresh load != appended entries, newest first", {"op": "FileHistory.roundtrip", "family": first_char_family(es, r)},
                             "appended %r, read back %r" % ([unS(e) for e in es], [unS(x) for x in r]))
+        return None
+    if kind == "inline_iter":
+        # entries are distinct: what one inline load() yields must not contain an entry twice, and the
+        # entries stored when its iteration started come exactly once, newest first
+        es, out, started = [], [], None
+        for op, r in zip(ops, res):
+            if op[0] == 1:
+                es.append(op[3])
+            elif op[0] == 8:
+                if is_err(r):
+                    return ("inline load() raised " + unS(r[1]), {"op": "History.load", "family": "raise"}, "")
+                if started is None:
+                    started = list(es)
+                out += r
+        if started is None:
+            return None
+        tags = {"op": "History.load", "when": "append_during_iteration" if len(es) > len(started) else "no_append", "clause": "yield"}
+        if len(set(map(tuple, out))) != len(out):
+            return ("inline load() yielded an entry twice", tags, "stored at start %r, yielded %r" % ([unS(x) for x in started], [unS(x) for x in out]))
+        if meta.get("complete") and [x for x in out if x in started] != started[::-1]:
+            return ("inline load() did not yield the entries stored at its start exactly once, newest first", tags,
+                    "stored at start %r, yielded %r" % ([unS(x) for x in started], [unS(x) for x in out]))
         return None
     if kind == "torn":
         es, offs, n = meta["entries"], meta["offsets"], meta["n"]
@@ -195,6 +228,23 @@ def gen_file_cases(chk):
                 ops.append([2])
         ops.append([2])
         out.append(({"kind": "instances", "gen": "random_instances"}, ops))
+    # inline History.load() consumed step by step, appends (same / other instance) in between
+    names = ["e%d" % k for k in range(12)]
+    for _ in range(1500 if thorough else 120):
+        i = rng.randint(0, 2)
+        n0 = rng.randint(0, 4)
+        pool = list(names)
+        ops = [[1, rng.randint(0, 2), None, S(pool.pop(0))] for _ in range(n0)]
+        ops.append([7, i])
+        nexts = 0
+        for _ in range(rng.randint(n0 + 1, n0 + 6)):
+            if rng.random() < 0.3 and pool:
+                ops.append([1, i if rng.random() < 0.7 else rng.randint(0, 2), None, S(pool.pop(0))])
+            else:
+                ops.append([8, i])
+                nexts += 1
+        ops += [[8, i]] * (12 - len(pool) + 2)      # run it to its end
+        out.append(({"kind": "inline_iter", "gen": "inline_iteration", "complete": True}, ops))
     return out
 
 
